@@ -19,7 +19,7 @@ ASSUMPTIONS = ['blacklist intervals are half-open [start,end) with start<end, as
                'fetch windows are only required to be contained and to extend by at most the fragment size (maximality is reported, not demanded)']
 MIN_NONTRIVIAL = {'quick': 3000, 'thorough': 100000}
 REQUIRED_MONITORS = ['yield:blacklisted_binning', 'yield:blacklisted_binning_window', 'yield:blacklisted_binning_contigs',
-                     'yield:fill_range', 'yield:bp_chunked', 'bed:gz', 'bed:shuffled', 'region:near_or_beyond_2^31']
+                     'yield:fill_range', 'yield:bp_chunked', 'bed:gz', 'bed:shuffled', 'region:near_or_beyond_2^31', 'history:blacklist_file_rewritten_in_place']
 EXHAUSTIVE = {'quick': False, 'thorough': True}
 SHARD_TIMEOUT = {'quick': 600, 'thorough': 7200}
 
@@ -221,7 +221,20 @@ def run_case(case):
             import gzip as _gz
             with (_gz.open(bed, 'wt') if bed_form == 'gz' else open(bed, 'w')) as f:
                 f.write(''.join(lines))
-            for F in (None, r.randint(0, 400)):
+            for round_, F in enumerate((None, r.randint(0, 400), r.randint(0, 400))):
+                if round_ == 2:
+                    # history: the blacklist file is rewritten in place (new intervals, same path) and the genome is tiled again in the same process
+                    bld = {}
+                    lines = []
+                    for name, ln in contigs:
+                        for _ in range(r.choice([0, 1, 2, 4])):
+                            a = r.randint(-10, ln + 10)
+                            w = r.randint(1, max(2, ln // 2))
+                            bld.setdefault(name, []).append((a, a + w))
+                            lines.append(f'{name}\t{a}\t{a + w}\n')
+                    with (_gz.open(bed, 'wt') if bed_form == 'gz' else open(bed, 'w')) as f:
+                        f.write(''.join(lines))
+                    acc.count('history:blacklist_file_rewritten_in_place')
                 B = r.randint(1, 800)
                 wl = None if r.random() < 0.6 else set(n for n, _ in r.sample(contigs, max(1, len(contigs) // 2)))
                 out = list(bbc.blacklisted_binning_contigs(contigs, B, F, blacklist_path=bed, contig_whitelist=wl))
